@@ -36,6 +36,13 @@ CHECKS = {
         note="Level 'other': model checking of the protocol plus conformance observation of an opaque numeric step; nothing is claimed about the optimiser's quality. Found and repaired F12 (start vector used vmax for the range) and F17 (off-axis candidates rotated on symmetric grids).",
         ref="§3 C04",
     ),
+    "C05": dict(
+        level="exploration",
+        technique="TLA+ spec Recover.tla: the complete scenario space of the property with its premises (resolvable, wrapped or inside, well separated, levels supplied or fitted) enumerated by TLC; spec-generated scenarios replayed through locate_droplets(refine=True) with the property's numeric tolerance (numeric oracle, not model checking)",
+        text="TLC enumerates all 64 200 admissible scenarios family (1-3 D Cartesian, polar, spherical, cylindrical) x periodicity x spacing ratio (1, 5/4, 3/2) x threshold rule (numeric, auto, extrema, mean, otsu) x intensity map ((0,1), (-0.1,0.1), (-0.3,0.9), (5,6), (-3,-1)) x level option (supplied, supplied+fitted, automatic+fitted) x centre class (cell centre, corner, generic, 0.03 cells left/right of the periodic seam, outside the box) x radius (3, 3.25, 5.5 cells) x width (1, 1.5, 2 cells) x 1-2 droplets. Each replayed scenario is rendered with dyadic spacing 0.5/1/2, random origin and seeded sub-cell jitter and located with refinement; every original must be matched by exactly one result with relative errors of position (per radius), radius and width < 1e-4 and periodic coordinates inside the box. Quick: 368 scenarios covering all 631 pairs of factor values; thorough: all 64 200 (worst relative error observed 1.2e-6).",
+        note="Level 'exploration': TLC only enumerates the scenario space; recovery accuracy is measured. The unrefined half (one candidate per droplet within half a cell) is model-checked by C01. Very low contrast (range < 0.2) and cylindrical droplets at the ends of the axis are outside the premises used here.",
+        ref="§3 C05",
+    ),
     "C06": dict(
         level="model_checking",
         technique="TLA+ spec Tracking.tla model-checked by TLC (exhaustive lattice histories) + spec->code replay + code->spec trace validation (TraceTracking.tla)",
